@@ -898,6 +898,9 @@ Proof.
   - simpl in *. lia.
 Qed.
 
+Lemma stopping_dec : forall s, stopping s = true \/ stopping s = false.
+Proof. intros s; destruct (stopping s); auto. Qed.
+
 Theorem step_inv : forall c s e s' out, Inv s -> step c s e = (s', out) -> step_ok s e s' out.
 Proof.
   intros c s e s' out [W L] H.
@@ -907,7 +910,11 @@ Proof.
   destruct e.
   - (* ESend *)
     destruct (NS ltac:(intros ? X; discriminate X)) as (s1 & o1 & ep & o2 & C & A & ->). cbn [core] in C.
-    destruct ((cnt <? 1) || (bytes <? 0)) eqn:G.
+    destruct ((cnt <? 1) || (bytes <? 0)) eqn:G; [|destruct (stopping_dec s) as [SG|SG]; rewrite SG in C].
+    + inv C. simpl in A. inv A. constructor; simpl; try lia.
+      * split; [|exact L]. eapply winv_frame with (s := s); simpl; auto.
+        eapply invB_more_ids; eauto; simpl; lia.
+      * apply Permutation_sym, Permutation_cons_append.
     + inv C. simpl in A. inv A. constructor; simpl; try lia.
       * split; [|exact L]. eapply winv_frame with (s := s); simpl; auto.
         eapply invB_more_ids; eauto; simpl; lia.
